@@ -1247,8 +1247,11 @@ class SharedSpaceOperations:
     def _find_names_in_subs(self, parent, name, skip_self=False):
         """Yield the object named ``name`` in each sub space that has it"""
         for subspace in self._get_subs(parent, skip_self=skip_self):
-            if name in subspace.namespace:
-                yield subspace._namespace.fresh[name]
+            # Look in cells, refs and spaces separately, as a global
+            # reference would otherwise hide a child space of the same name
+            for members in subspace.namespace.maps:
+                if name in members:
+                    yield members[name]
 
     def _get_space_bases(self, space, skip_self=True):
         idx = 1 if skip_self else 0
